@@ -163,8 +163,9 @@ Proof.
                 Hcode Hreason Hok (pragma_neutral_no_pragma _ Vpr) tfs (bs "chunked") cs l0 []
                 eq_refl Hallow Vte eq_refl Vcl Hbad Hchunks Hl0 Htfs Hfit) as P.
   fold F in P.
-  assert (N1 : is_1xx_nonterminal (a_code a) = false).
-  { unfold is_1xx_nonterminal. destruct (allowed_not_1xx _ Hallow) as [-> _]. reflexivity. }
+  assert (N1 : (a_code a < 100 \/ 199 < a_code a)%Z).
+  { destruct (allowed_not_1xx _ Hallow) as [Hn _].
+    destruct (Z.leb_spec 100 (a_code a)); destruct (Z.leb_spec (a_code a) 199); lia. }
   eexists. eexists. split.
   - pose proof (h1_delivery (bs "GET") m sizes [] _ _ _ (Forall_nil _) ltac:(cbn; lia) P) as D.
     cbn [render_interims flat_map app] in D. rewrite D by (cbn [r_code]; exact N1).
